@@ -12,6 +12,7 @@ import (
 	"path/filepath"
 	"regexp"
 	"runtime"
+	"runtime/debug"
 	"strconv"
 	"strings"
 	"syscall"
@@ -272,7 +273,19 @@ func workerMain() {
 	if err := syscall.Setrlimit(syscall.RLIMIT_AS, &syscall.Rlimit{Cur: lim, Max: lim}); err != nil {
 		core.HarnessError("worker: setrlimit: %v", err)
 	}
+	errDir, phase := os.Getenv("VERIF_C06_SHM"), os.Getenv("VERIF_C06_PHASE")
+	if errDir == "" {
+		core.HarnessError("worker: VERIF_C06_SHM not set")
+	}
 	core.WorkerMain(func(cj core.Job) json.RawMessage {
+		// stderr of this job goes to its own file: the coordinator reads the head of it when the process dies
+		// (the Go runtime prints "fatal error: ..." first and a long traceback after)
+		errPath := filepath.Join(errDir, fmt.Sprintf("err-%s-%d", phase, cj.ID))
+		if f, err := os.Create(errPath); err == nil {
+			syscall.Dup3(int(f.Fd()), 2, 0)
+			f.Close()
+		}
+		defer os.Remove(errPath)
 		var j job
 		if err := json.Unmarshal(cj.Data, &j); err != nil {
 			core.HarnessError("worker: bad job data: %v", err)
@@ -555,7 +568,9 @@ func runConstruct(j job) (res *constructRes) {
 		res.Outcome, res.Detail = "alloc-error", al.Error.Error()
 		return
 	}
+	old := debug.SetGCPercent(-1) // a runaway loop should reach the address-space limit quickly
 	pieces := piece.NewPieces(info, al.Files)
+	debug.SetGCPercent(old)
 	res.Pieces = len(pieces)
 	for i := range pieces {
 		res.Sections += int64(len(pieces[i].Data))
